@@ -1,8 +1,8 @@
 import AnySyncModel.Core.Wire
 import AnySyncModel.App.Model
 /-! line protocol for area `app` (C20)
-  start  <id:r:fi:fr> …      → `<outcome> <events>`
-  close  <id:r:fi:fr> …      → `<events>`
+  start  <id:r:fi:fr:fc> …      → `<outcome> <events>`
+  close  <id:r:fi:fr:fc> …      → `<events>`
   lookup <name> <container>/<container>/…   (child first; container = `name:tag,name:tag` or `-`)
 -/
 namespace AnySync.Driver.App
@@ -10,9 +10,9 @@ open AnySync.App AnySync.Wire
 
 def parseComp (s : String) : Option Comp :=
   match s.splitOn ":" with
-  | [a, b, c, d] => do
-    let id ← a.toNat?; let r ← bool? b; let fi ← bool? c; let fr ← bool? d
-    pure ⟨id, r, fi, fr⟩
+  | [a, b, c, d, e] => do
+    let id ← a.toNat?; let r ← bool? b; let fi ← bool? c; let fr ← bool? d; let fc ← bool? e
+    pure ⟨id, r, fi, fr, fc⟩
   | _ => none
 
 def parseComps : List String → Option (List Comp)
@@ -44,7 +44,7 @@ def step (line : String) : String :=
     | none => "bad-op"
   | "close" :: rest =>
     match parseComps rest with
-    | some cs => showEvs (close cs)
+    | some cs => s!"{if closeErr cs then "err" else "ok"} {showEvs (close cs)}"
     | none => "bad-op"
   | ["lookup", name, chain] =>
     match name.toNat?, (chain.splitOn "/").mapM parseContainer with
